@@ -117,6 +117,17 @@ impl NamespaceStates {
         state.finish(origin, result)
     }
 
+    /// The remote declined our sync request because it considers a sync with us to be running.
+    ///
+    /// If our own request is still what occupies the sync state for this peer (and not a request
+    /// from the remote that we accepted in the meantime), no exchange is or will be running for
+    /// it, so the state is reset to idle. Otherwise nothing changes.
+    pub fn abort_connect(&mut self, namespace: &NamespaceId, node: EndpointId) {
+        if let Some(state) = self.entry(namespace, node) {
+            state.abort_connect();
+        }
+    }
+
     /// Set whether a [`super::live::Event::PendingContentReady`] may be emitted once the pending queue
     /// becomes empty.
     ///
@@ -191,6 +202,17 @@ impl PeerState {
         self.last_sync = Some((Instant::now(), result));
         self.state = SyncState::Idle;
         start.map(|s| (s, self.resync_requested))
+    }
+
+    fn abort_connect(&mut self) {
+        if let SyncState::Running {
+            origin: Origin::Connect(_),
+            ..
+        } = self.state
+        {
+            debug!("connect was declined by remote, reset to idle");
+            self.state = SyncState::Idle;
+        }
     }
 
     fn start_connect(&mut self, reason: SyncReason) -> bool {
